@@ -366,7 +366,9 @@ def run_case(case, opts):
         roots[label] = m.ref(data, label)
     out = []
     snap = opts.get("snapshots", True)
-    for op in case["ops"]:
+    nops = len(case["ops"])
+    for iop, op in enumerate(case["ops"]):
+        heavy = snap or iop == nops - 1        # big cases: judge only the last operation
         del TRACE[:]
         del STARTS[:]
         kind = op[0]
@@ -442,18 +444,22 @@ def run_case(case, opts):
         obs["start_order"] = STARTS[-1] if STARTS and kind in ("set", "inplace") else []
         if snap:
             obs.update(snapshot(m, roots_data, None))
-        else:
+        elif heavy:
             st = []
             for label, data in roots_data.items():
                 flatten(data, [label], st)
             obs["store"] = st
+        else:
+            obs["store"] = []
+            obs["trace"] = []
         # ---- oracles
-        orc = {}
-        orc["canon"] = canon_ok(m)
-        if kind in ("set", "inplace") and sd_refs is not None and (obs["err"] is None or obs["err"] == "Fault"):
-            orc["trace"] = trace_verdict(m, sd_refs, obs["trace"], obs["err"])
-        if obs["err"] is None:
-            orc["inconsistent"] = consistency(m)
+        orc = {"canon": []}
+        if heavy:
+            orc["canon"] = canon_ok(m) if snap else []
+            if kind in ("set", "inplace") and sd_refs is not None and (obs["err"] is None or obs["err"] == "Fault"):
+                orc["trace"] = trace_verdict(m, sd_refs, obs["trace"], obs["err"])
+            if obs["err"] is None:
+                orc["inconsistent"] = consistency(m)
         obs["oracle"] = orc
         FAULT["n"] = saved
         out.append(obs)
